@@ -27,9 +27,17 @@ func main() { hv.Main(map[string]func(*hv.RunCfg) error{"c06": run}) }
 // perturb returns a copy of v in which the content of every marked subtree is
 // replaced by fresh content of the same type (marks kept). changed reports
 // whether anything was replaced.
+// onlyMark: when non-empty, only subtrees carrying THAT mark are perturbed (the two scopes then
+// differ under one mark label, which is what the Coq case format of Eval/MarksNI_Check.v expects).
+var onlyMark string
+
 func perturb(g *hv.EvalGen, v cty.Value, changed *bool) cty.Value {
 	if v.IsMarked() {
 		u, m := v.Unmark()
+		if _, has := m[onlyMark]; onlyMark != "" && !has {
+			// marked with other labels only: keep the layer, look inside
+			return perturbInside(g, u, changed).WithMarks(m)
+		}
 		if u.ContainsMarked() {
 			// keep the nested marks: only contents change
 			return perturb(g, u, changed).WithMarks(m)
@@ -56,6 +64,13 @@ func perturb(g *hv.EvalGen, v cty.Value, changed *bool) cty.Value {
 			*changed = true
 		}
 		return nu.WithMarks(m)
+	}
+	return perturbInside(g, v, changed)
+}
+
+func perturbInside(g *hv.EvalGen, v cty.Value, changed *bool) cty.Value {
+	if v.IsMarked() {
+		return perturb(g, v, changed)
 	}
 	if !v.IsKnown() || v.IsNull() {
 		return v
@@ -475,6 +490,10 @@ func run(cfg *hv.RunCfg) error {
 	rep := hv.NewReport("C06", cfg.Seed)
 	rep.Rule = "pairs of scopes that differ only in the content of marked (sub)values (same types, same marks; marks at top level or nested in collections); typed expression generator + hcldec bodies + dynamic blocks; non-trivial = the scope contains a marked value that the expression can reach and the perturbation changed it; distinct by SHA-256 of (scope, text)"
 	r := hv.NewRng(cfg.Seed, 606)
+	cf := &hv.CaseFile{Dir: cfg.Out, Name: "c06cases",
+		Imports: "From Coq Require Import QArith String.\nFrom HclV Require Import Base.Prelude Cty.Values Cty.Convert Cty.Ops Eval.Impl Eval.Funcs Eval.MarksNI_Check.",
+		Ctype:   "ni_case", Checker: "MarksNI_Check.bad",
+		Extras:  [][2]string{{"ni_covered", "ni_covered"}, {"ni_violations", "ni_violations"}, {"ni_skipped", "ni_skipped"}}}
 	type job struct {
 		text string
 		kind string // expr | body | dyn
@@ -562,6 +581,11 @@ func run(cfg *hv.RunCfg) error {
 		}
 		changed := false
 		var ctx2 *hcl.EvalContext
+		// expression cases perturb ONE mark label in 70 % of the cases (those become Coq cases)
+		onlyMark = ""
+		if j.kind == "expr" && r.Chance(0.7) {
+			onlyMark = fmt.Sprintf("m%d", 1+r.Intn(3))
+		}
 		if j.kind == "tgt" {
 			// hand-built pair of scopes (same types and marks, marked contents from small sets)
 			ctx1, ctx2 = tgtScope(r)
@@ -577,6 +601,30 @@ func run(cfg *hv.RunCfg) error {
 		if p1 != nil || p2 != nil {
 			rep.Fail(hv.Failure{Kind: "panic", Detail: fmt.Sprint(p1, p2), Input: text, Extra: map[string]string{"scope1": scopeDump(ctx1)}})
 			continue
+		}
+		if exprForClass != nil && (onlyMark != "" || j.kind == "tgt") && changed {
+			// the Coq case: mark label, both scopes, the expression, both observed runs
+			label := onlyMark
+			if j.kind == "tgt" {
+				label = tgtMarkOf(ctx1)
+			}
+			if label != "" {
+				info := &hv.ValInfo{}
+				c1, c2 := hv.CoqCtx(ctx1, info), hv.CoqCtx(ctx2, info)
+				es := hv.CoqExpr(exprForClass, info)
+				s1, s2 := hv.CoqVal(v1, info), hv.CoqVal(v2, info)
+				mode := 0
+				ra, rb := hv.NumRisk(exprForClass, ctx1), hv.NumRisk(exprForClass, ctx2)
+				if info.Inexact || ra == 1 || rb == 1 {
+					mode = 1
+				}
+				if ra == 2 || rb == 2 || info.Unsupported {
+					mode = 2
+				}
+				cf.Add(fmt.Sprintf("mkNI %d %s\n  %s\n  %s\n  %d %s %s\n  %s %s", hv.MarkID(label), c1, c2, es, mode, s1, hv.CoqDiagSummaries(d1), s2, hv.CoqDiagSummaries(d2)))
+				rep.Idx(text + "   ## scope1: " + scopeDump(ctx1) + "   ## scope2: " + scopeDump(ctx2))
+				rep.Hist("coq-case:" + j.kind)
+			}
 		}
 		if d1.HasErrors() || d2.HasErrors() {
 			rep.Hist("outcome:error-in-a-run")
@@ -626,6 +674,10 @@ func run(cfg *hv.RunCfg) error {
 		_ = k
 		_ = v
 	}
-	rep.CaseFiles = nil
+	names, err := cf.Flush(120)
+	if err != nil {
+		return err
+	}
+	rep.CaseFiles = names
 	return rep.Write(cfg.Out)
 }
